@@ -170,6 +170,35 @@ def model_values(solver, symbols, minimize=()):
 
 
 # ------------------------------------------------------------------------------------------ verification of one contract
+def _run_batteries(res, cases, repo):
+    """concrete batteries of the contracts (bounded/replay_helpers.py) are run on their own on every run - also when the symbolic part is out
+    of reach for the current code: they are the run-time check of the same contract on the real code over a stated finite set of cases
+    (bounded, never counted as proved)"""
+    if "batteries" in res:
+        return
+    res["batteries"] = []
+    seen = set()
+    from .dsl import battery_confirm
+    from . import replay as rp
+    for case in cases:
+        if case.replay is None or case.confirm is not battery_confirm:
+            continue
+        try:
+            call = case.replay({})
+        except Exception:
+            continue
+        if not call or call.get("args") or call["target"] in seen:
+            continue
+        seen.add(call["target"])
+        t1 = time.time()
+        out = rp.run_call(repo, call)
+        ok = out.get("kind") == "return" and out.get("value") is True
+        if out.get("kind") == "raise" and "/gfapy/" in str(out.get("raised_in")) and "/bounded/" not in str(out.get("raised_in")):
+            out = {"kind": "return", "value": "the battery was stopped by %s raised in %s: %s" % (out.get("exc"), out.get("raised_in"), out.get("msg"))}
+        res["batteries"].append(dict(target=call["target"], ok=ok, seconds=round(time.time() - t1, 3),
+                                     outcome={k: v for k, v in out.items() if k != "tb"} if not ok else None))
+
+
 def verify(contract, repo, tier="quick"):
     """run in a worker: returns a JSON-able result"""
     t_start = time.time()
@@ -211,6 +240,7 @@ def verify(contract, repo, tier="quick"):
             paths = E.run(func, case.args, st0, label=info["qualname"]) if case.args is not None else []
         except Unsupported as e:
             res["out_of_reach"] = "case %s: %s" % (case.label, e)
+            _run_batteries(res, cases, repo)
             return res
         except Exception as e:
             res["error"] = "engine failure in case %s: %s\n%s" % (case.label, e, traceback.format_exc())
@@ -230,6 +260,7 @@ def verify(contract, repo, tier="quick"):
                 goal = case.post(kind, val, st)
             except Unsupported as e:
                 res["out_of_reach"] = "case %s post: %s" % (case.label, e)
+                _run_batteries(res, cases, repo)
                 return res
             desc = "raise %s" % val.cls.__name__ if kind == "raise" else kind
             obls.append(("%s/%s/path%d[%s]:post" % (contract.id, case.label, i, desc), list(st.pc), goal, kind, val))
@@ -308,29 +339,6 @@ def verify(contract, repo, tier="quick"):
                 if gname.endswith(":" + case.label) and all(d["premises"] == "unsat" for d in ds):
                     for d in ds:
                         d["verdict"] = "vacuous"
-    # concrete batteries of the contracts (bounded/replay_helpers.py) are also run on their own on every run: they are the run-time check of
-    # the same contract on the real code over a stated finite set of cases (bounded, never counted as proved)
-    res["batteries"] = []
-    seen = set()
-    from .dsl import battery_confirm
-    for case in cases:
-        if case.replay is None or case.confirm is not battery_confirm:
-            continue
-        try:
-            call = case.replay({})
-        except Exception:
-            continue
-        if not call or call.get("args") or call["target"] in seen:
-            continue
-        seen.add(call["target"])
-        from . import replay as rp
-        t1 = time.time()
-        out = rp.run_call(repo, call)
-        ok = out.get("kind") == "return" and out.get("value") is True
-        if out.get("kind") == "raise" and "/gfapy/" in str(out.get("raised_in")) and "/bounded/" not in str(out.get("raised_in")):
-            # an exception raised inside the library while the battery drove it through a scenario it expects to work: a failing case
-            out = {"kind": "return", "value": "the battery was stopped by %s raised in %s: %s" % (out.get("exc"), out.get("raised_in"), out.get("msg"))}
-        res["batteries"].append(dict(target=call["target"], ok=ok, seconds=round(time.time() - t1, 3),
-                                     outcome={k: v for k, v in out.items() if k != "tb"} if not ok else None))
+    _run_batteries(res, cases, repo)
     res["seconds"] = round(time.time() - t_start, 3)
     return res
